@@ -26,7 +26,7 @@ REQUIRED_COUNTERS = ['pairs:dx_or_ds', 'pairs:replace_physical_derivs', 'pairs:i
                      'pairs:fold_constants', 'pairs:cse', 'pairs:replace_trivial_vars', 'oracle:initial_tree_vs_semantics', 'oracle:program_value',
                      'oracle:exact_identity', 'hook:transform_exprs']
 ASSUMPTIONS = ['environments are random reals with well-conditioned, orientation-preserving (det J >= 0.3) Jacobians; space-time forms get cylinder Jacobians (their rewriting assumes a cylinder)',
-               'tolerance 1e-9 relative to the magnitude of the values compared (random environments are O(1))']
+               'tolerance 1e-9 relative to the magnitude of the values compared (random environments are O(1)); 1e-8 for the comparison of the constructed tree with the semantic interpreter (two independent evaluations of one formula; observed worst 9.6e-10 in 220000 forms)']
 K = 6
 
 def cases(tier, seed):
@@ -118,8 +118,8 @@ def check_form(rec, case, vf, desc, rng, sig0):
                     if vf.vec: tv = tv[i * nu + j] if desc['arity'] == 2 else tv[j]
                     w, sc = _cmp_values(sv, tv)
                     rec.count('oracle:initial_tree_vs_semantics')
-                    rec.ratio('initial_tree_vs_semantics', w, 1e-9)
-                    if not w <= 1e-9:
+                    rec.ratio('initial_tree_vs_semantics', w, 1e-8)
+                    if not w <= 1e-8:      # two independent evaluations of one formula (jets vs expanded tree): a decade more than the rewrite pairs
                         rec.violation(dict(sig0, oracle='expression tree built by the vform API has the value the form denotes', stage='construction'), case,
                                       {'expr': ei, 'component': [i, j], 'rel_dev': w}); return False
     # ---- rewrite pairs, recorded at the module-global hook
